@@ -6,15 +6,15 @@ from . import oracles as O
 from . import small as SM
 
 CONFIG = {
-    'C01': dict(xcheck=True, streams=[('td_class', 480), ('td_wf', 880), ('td_coarse', 320), ('fail_wf', 200), ('panic', 240), ('multi', 40), ('inj_cycle', 240)], keep='om'),
+    'C01': dict(xcheck=True, streams=[('td_class', 480), ('td_wf', 880), ('td_coarse', 320), ('fail_wf', 200), ('panic', 240), ('multi', 40), ('inj_cycle', 240), ('inj_hidden', 80), ('inj_overlap', 80)], keep='om'),
     'C02': dict(streams=[('td_exact', 880), ('td_wf', 480), ('td_mid', 160), ('panic', 240), ('fail_wf', 240), ('fail_exact', 320)], keep='ov'),
-    'C03': dict(streams=[('bu_class', 320), ('bu_wf', 720), ('mixed_wf', 320), ('newreq', 160), ('cutoff_newreq', 160), ('reported_products', 160), ('fail_bu', 200), ('mid_session', 160)], keep='ovm', extra='lossy'),
+    'C03': dict(streams=[('bu_class', 320), ('bu_wf', 720), ('mixed_wf', 320), ('newreq', 160), ('cutoff_newreq', 160), ('reported_products', 160), ('fail_bu', 200), ('mid_session', 160), ('abort_bu', 120)], keep='ovm', extra='lossy'),
     'C04': dict(xcheck=True, streams=[('bu_class', 320), ('bu_wf', 960), ('mixed_wf', 160), ('newreq', 160), ('cutoff_newreq', 240), ('reported_products', 120), ('abort_bu', 240)], keep='ov'),
     'C05': dict(streams=[('inj_hidden', 1200), ('siblings', 240), ('td_wf', 160), ('same_session', 80), ('chain_readers', 160), ('newreq', 240), ('cycle_then_hidden', 160)], keep='om', extra='wabort'),
     'C06': dict(streams=[('inj_overlap', 1200), ('td_wf', 160), ('same_session', 80), ('newreq', 160)], keep='om', extra='wabort'),
     'C07': dict(streams=[('inj_cycle', 880), ('reorder_cycle', 240), ('cycle_query', 240), ('newreq', 160), ('mid_session', 240)], keep='ov'),
     'C08': dict(xcheck=True, streams=[('td_wf', 560), ('bu_wf', 320), ('multi', 80), ('panic', 240), ('abort_bu', 120), ('newreq', 160), ('same_abort', 80), ('fail_wf', 160)], keep='od'),
-    'C09': dict(streams=[('td_coarse', 880), ('bu_wf', 320), ('multi', 80), ('near_td', 300), ('near_bu', 200)], keep='dv', extra='stampsrc,lossy'),
+    'C09': dict(streams=[('td_coarse', 880), ('bu_wf', 320), ('multi', 80), ('near_td', 300), ('near_bu', 200), ('panic', 120)], keep='dv', extra='stampsrc,lossy'),
     'C16': dict(streams=[('td_wf', 240), ('bu_wf', 240), ('mixed_wf', 120), ('newreq', 160), ('abort_bu', 200), ('panic', 160)], keep='oevdm', two_process=True, extra='fsclock'),
     'C17': dict(streams=[('td_wf', 480), ('bu_wf', 480), ('fail_wf', 240), ('panic', 160), ('failstamp', 160)], keep='v', extra='tracker'),
     'C18': dict(streams=[('fail_wf', 800), ('fail_bu', 500), ('fail_mixed', 300), ('fail_panic', 400)], keep='eov', extra='flaky'),
